@@ -204,6 +204,10 @@ func definedInSeveralFiles(p *prog.Program) bool {
 	return false
 }
 
+// values rendered at value sites of C13 programs, a third of them through a SafeWriter: whatever route the bytes take,
+// they belong to the try body they were rendered in
+var c13values = []prog.Opaque{{Src: "wval1", Val: prog.Str("«w1<&>»")}, {Src: "wval2", Val: prog.Str("«w2»")}}
+
 var c08 = &progSpec{
 	id: "C08",
 	cfg: func(idx int) prog.Cfg {
@@ -220,8 +224,10 @@ var c08 = &progSpec{
 var c13 = &progSpec{
 	id: "C13",
 	cfg: func(idx int) prog.Cfg {
-		return prog.Cfg{Items: 3, MaxDepth: 4, Ifs: true, Ranges: true, Vars: true, Blocks: idx%3 != 0, Includes: idx%4 == 0, MultiFile: idx%6 == 0, Try: true, Fails: true, Ctx: true, CondKinds: true, RangeErrs: true, SharedNames: idx%2 == 0, StateProbes: idx%2 == 1, IssetSwallow: true, IncludeIfExists: idx%2 == 0}
+		return prog.Cfg{Items: 3, MaxDepth: 4, Ifs: true, Ranges: true, Vars: true, Blocks: idx%3 != 0, Includes: idx%4 == 0, MultiFile: idx%6 == 0, Try: true, Fails: true, Ctx: true, CondKinds: true, RangeErrs: true, SharedNames: idx%2 == 0, StateProbes: idx%2 == 1, IssetSwallow: true, IncludeIfExists: idx%2 == 0,
+			Values: c13values, Writers: []string{"raw", "unsafe"}}
 	},
+	extra: map[string]interface{}{"wval1": "«w1<&>»", "wval2": "«w2»"},
 	nontriv: func(f map[string]bool, _ *prog.Program) bool {
 		return f["try"] && f["fail"] && (f["range"] || f["yield"] || f["if-let"] || f["include"])
 	},
